@@ -44,6 +44,20 @@ TlsHelloWith(field, delta) ==
   IN <<22, 3, 1>> \o U16(adj("rec", Len(hs))) \o hs
 TlsFields == {"rec", "hs", "sid", "ciphers", "comps", "exts", "ext", "snilist", "sniname"}
 
+\* ---- TLS: well-formed ClientHellos whose TEXT fields (SNI host name, ALPN protocol names) are arbitrary octet strings: valid UTF-8 of
+\* 2, 3 and 4 octets per character at the first / last / only position, truncated and impossible UTF-8, NUL, the empty string
+TlsTexts == << <<195, 169, 50>>, <<195, 177>>, <<50, 195, 169>>, <<230, 151, 165, 230, 156, 172>>, <<240, 159, 152, 128>>, <<240, 159, 152, 128, 104>>, <<195>>, <<255, 104>>,
+               <<104, 192, 128>>, <<>>, <<0>>, <<104>>, <<104, 50>>, <<237, 160, 128>>, <<104, 0, 50>> >>
+TlsHelloText(host, protos) ==
+  LET sni == U16(Len(host) + 3) \o <<0>> \o U16(Len(host)) \o host
+      RECURSIVE Cat(_)
+      Cat(ps) == IF Len(ps) = 0 THEN <<>> ELSE <<Len(ps[1])>> \o ps[1] \o Cat(Tail(ps))
+      al == Cat(protos)
+      exts == U16(0) \o U16(Len(sni)) \o sni \o U16(16) \o U16(Len(al) + 2) \o U16(Len(al)) \o al \o U16(43) \o U16(3) \o <<2, 3, 4>>
+      body == <<3, 3>> \o [i \in 1..32 |-> i] \o <<0>> \o U16(4) \o <<19, 1, 19, 2>> \o <<1, 0>> \o U16(Len(exts)) \o exts
+      hs == <<1, 0>> \o U16(Len(body)) \o body
+  IN <<22, 3, 1>> \o U16(Len(hs)) \o hs
+
 \* the recorded event of one call
 FeedOk(outcome) == outcome \in {"ok", "err"}
 =============================================================================
